@@ -50,6 +50,13 @@ SPEC = {
     R + "is_ok_and": ("res", {0: ("call", 1, True, None), 1: ("bool", 0)}),
     R + "is_err_and": ("res", {0: ("bool", 0), 1: ("call", 1, True, None)}),
 }
+# plain re-wrappings (no function argument): lowered as well, so that `x.ok()` / `x.unwrap_or(d)` and the match they abbreviate are one form
+PLAIN = {
+    O + "unwrap_or": ("opt", {0: ("arg", 1), 1: ("payload",)}),
+    O + "ok_or": ("opt", {0: ("argwrap", 1, (RES, "Err", 1)), 1: ("rewrap", RES, "Ok", 0)}),
+    R + "unwrap_or": ("res", {0: ("payload",), 1: ("arg", 1)}),
+}
+SPEC.update(PLAIN)
 VARIANTS = {"opt": ["None", "Some"], "res": ["Ok", "Err"]}
 SPECIAL = (O + "filter", O + "get_or_insert_with")
 
@@ -146,11 +153,16 @@ def _lower_combinator(B, bi, done):
                 return False
             c = B.closure_of(args[a[1]])
             if c is None:
-                return False
+                # a function item (`.map(from_utf8_lossy)`, `.unwrap_or_else(Vec::new)`): called as an ordinary function
+                fa = args[a[1]]
+                if fa.get("k") == "const" and "fn" in fa:
+                    c = ("fnitem", fa["fn"])
+                else:
+                    return False
             clos[v] = c
         if a[0] == "arg" and a[1] >= len(args):
             return False
-    if not clos:
+    if not clos and nm not in PLAIN:
         return False
     ln = t.get("ln")
     mark = {"low": nm}
@@ -176,8 +188,13 @@ def _lower_combinator(B, bi, done):
             arm[v] = B.new_block([_assign(D, {"k": "use", "op": _const_bool(a[1])}, ln)], {"k": "goto", "t": C, "ln": ln}, mark)
         elif a[0] == "arg":
             arm[v] = B.new_block([_assign(D, {"k": "use", "op": args[a[1]]}, ln)], {"k": "goto", "t": C, "ln": ln}, mark)
+        elif a[0] == "argwrap":
+            arm[v] = B.new_block([_assign(D, _adt(a[2][0], a[2][1], a[2][2], [args[a[1]]]), ln)], {"k": "goto", "t": C, "ln": ln}, mark)
         else:
             cpath, cl = clos[v]
+            if cpath == "fnitem":
+                arm[v] = _fn_call_block(B, cl, [{"k": "move", "p": payload(v)}] if a[2] else [], D, C, a[3], ln, mark, t.get("unwind"), t["dest"].get("ty"))
+                continue
             arm[v] = _closure_call_block(B, cpath, cl, [{"k": "move", "p": payload(v)}] if a[2] else [], [pty.get(v)] if a[2] else [], D, C, a[3], ln, mark, t.get("unwind"), crate)
             done.setdefault(cpath, 0)
             done[cpath] += 1
@@ -187,6 +204,19 @@ def _lower_combinator(B, bi, done):
     b["term"] = {"k": "switch", "d": _mv(d, "isize"), "dty": "isize", "targets": [[v, arm[v]] for v in sorted(arm)], "otherwise": unreachable, "ln": ln,
                  "was_call": nm}
     return True
+
+
+def _fn_call_block(B, fdict, arg_ops, D, C, wrap, ln, mark, unwind, dest_ty):
+    """a block that calls the function item with the given arguments, stores the (possibly wrapped) result in D and continues at C"""
+    f = copy.deepcopy(fdict)
+    if wrap is None:
+        term = {"k": "call", "f": f, "args": arg_ops, "dest": copy.deepcopy(D), "t": C, "unwind": unwind, "ln": ln}
+        return B.new_block([], term, mark)
+    rty = f.get("output") or "?"
+    tmp = B.new_local(rty)
+    nxt = B.new_block([_assign(copy.deepcopy(D), _adt(wrap[0], wrap[1], wrap[2], [_mv(tmp, rty)]), ln)], {"k": "goto", "t": C, "ln": ln}, mark)
+    term = {"k": "call", "f": f, "args": arg_ops, "dest": _place(tmp, rty), "t": nxt, "unwind": unwind, "ln": ln}
+    return B.new_block([], term, mark)
 
 
 def _closure_call_block(B, cpath, cl, arg_ops, arg_tys, D, C, wrap, ln, mark, unwind, crate):
